@@ -15,6 +15,11 @@ class InjectedBaseFault(BaseException):
     pass
 
 
+class InjectedOSFault(OSError):
+    """An OSError-family failure (disk full, broken pipe, permission...), the kind I/O layers really raise."""
+    pass
+
+
 class State:
     root = None            # directory of the staged thejoker package
     mode = "off"           # off | record | inject
@@ -88,9 +93,9 @@ def record():
     sys.monitoring.restart_events()
 
 
-def inject(key, k, base=False):
+def inject(key, k, base=False, oserr=False):
     State.mode, State.counts, State.target, State.fired = "inject", {}, (key, k), 0
-    State.exc = InjectedBaseFault if base else InjectedFault
+    State.exc = InjectedBaseFault if base else InjectedOSFault if oserr else InjectedFault
     sys.monitoring.restart_events()
 
 
@@ -105,6 +110,7 @@ class Boundary:
     fired = 0
     recording = False
     installed = False
+    oserr = False
 
     @classmethod
     def hit(cls, name):
@@ -112,7 +118,7 @@ class Boundary:
         cls.counts[name] = n
         if cls.target is not None and cls.target[0] == name and cls.target[1] == n:
             cls.fired += 1
-            raise InjectedFault("injected at boundary %s call #%d" % (name, n))
+            raise (InjectedOSFault if cls.oserr else InjectedFault)("injected at boundary %s call #%d" % (name, n))
 
     @classmethod
     def install(cls):
@@ -144,8 +150,8 @@ class Boundary:
         cls.installed = True
 
     @classmethod
-    def reset(cls, target=None):
-        cls.counts, cls.target, cls.fired = {}, target, 0
+    def reset(cls, target=None, oserr=False):
+        cls.counts, cls.target, cls.fired, cls.oserr = {}, target, 0, oserr
 
 
 class FaultyPool:
@@ -171,7 +177,7 @@ def chain_has_fault(exc):
         if e is None or id(e) in seen:
             continue
         seen.add(id(e))
-        if isinstance(e, (InjectedFault, InjectedBaseFault)) or "injected at" in str(e):
+        if isinstance(e, (InjectedFault, InjectedBaseFault, InjectedOSFault)) or "injected at" in str(e):
             return True
         stack.append(e.__cause__)
         stack.append(e.__context__)
